@@ -65,6 +65,10 @@ pub fn handle_peer_message(
     msg: &MarshalledMessage,
     con: &mut DuplexConn,
 ) -> Result<bool, crate::connection::Error> {
+    // only method calls are answered: a signal, reply or error that names the Peer interface is not ours to handle
+    if !matches!(msg.typ, crate::message_builder::MessageType::Call) {
+        return Ok(false);
+    }
     if let Some(interface) = &msg.dynheader.interface {
         if interface.eq("org.freedesktop.DBus.Peer") {
             if let Some(member) = &msg.dynheader.member {
